@@ -4,6 +4,7 @@ primitives (forward mode by dual numbers over proxies)."""
 from __future__ import annotations
 
 import types
+from .ns import StubNS
 
 import z3
 
@@ -220,6 +221,6 @@ def jvp(f, primals, tangents):
 
 
 def namespace():
-    return types.SimpleNamespace(
+    return StubNS(
         Zero=Zero, instantiate_zeros=instantiate_zeros, primitive_jvps=PrimitiveJvps(),
     )
